@@ -62,10 +62,23 @@ class Indiv(list):
     __slots__ = ("fitness",)
 
 
+def xfloat(v):
+    """value of an `extreme` case: a float literal such as '1.5e308', 'inf', '-inf', '5e-324'"""
+    return float(v)
+
+
 def build(d):
     w = [Fr(x) for x in d["w"]]
     F = fit_class(w)
     pop = []
+    if d.get("extreme"):
+        # F37: finite doubles near the overflow threshold, infinities and subnormals.  Built from float literals;
+        # the weights of these cases are +-1, so the weighted values are the values up to sign.
+        for vals in d["pop"]:
+            ind = Indiv(xfloat(v) for v in vals)
+            ind.fitness = F(tuple(xfloat(v) for v in vals))
+            pop.append(ind)
+        return pop
     for vals in d["pop"]:
         ind = Indiv(float(Fr(v)) for v in vals)
         ind.fitness = F(tuple(float(Fr(v)) for v in vals))
@@ -157,11 +170,25 @@ def evaluate(d):
     n = len(pop)
     m = len(d["w"])
     index_of = dict((id(o), i) for i, o in enumerate(pop))
-    wv = [tuple(Fr(x) for x in ind.fitness.wvalues) for ind in pop]
-    # exactness of the transport: wvalues == value*weight as rationals
-    for vals, t in zip(d["pop"], wv):
-        if t != tuple(Fr(v) * Fr(w) for v, w in zip(vals, d["w"])):
-            return Case(d, [], [], oracle="weighted values are not value*weight (inexact input)", tag="inexact")
+    if d.get("extreme"):
+        # The ranking depends only on the ORDER of the weighted values in each objective (C01.compare_order_invariant;
+        # dominance is defined by per-objective comparisons), so the model and the brute-force oracle see the dense
+        # ranks of the doubles — an order-isomorphic image that exists for infinities and needs no arithmetic.
+        fw = [tuple(ind.fitness.wvalues) for ind in pop]
+        if any(x != x for t in fw for x in t):
+            return Case(d, [], [], oracle="weighted values contain nan (input outside the domain)", tag="inexact")
+        wv = []
+        ranks = []
+        for j in range(m):
+            col = sorted(set(t[j] for t in fw))
+            ranks.append(dict((x, i) for i, x in enumerate(col)))
+        wv = [tuple(Fr(ranks[j][t[j]]) for j in range(m)) for t in fw]
+    else:
+        wv = [tuple(Fr(x) for x in ind.fitness.wvalues) for ind in pop]
+        # exactness of the transport: wvalues == value*weight as rationals
+        for vals, t in zip(d["pop"], wv):
+            if t != tuple(Fr(v) * Fr(w) for v, w in zip(vals, d["w"])):
+                return Case(d, [], [], oracle="weighted values are not value*weight (inexact input)", tag="inexact")
     ptok = ";".join(",".join(sfr(x) for x in t) for t in wv) if wv else "-"
     ks, ffos = d["ks"], d["ffos"]
     ktok = ",".join(map(str, ks))
@@ -395,7 +422,41 @@ def large_cases(tier, rng, mult):
         yield case(w, pop, ks, "large/n=%d/m=%d" % (n, m), ffos=(0,))
 
 
+XVALS = ["1.4e308", "1.5e308", "1.6e308", "1.7e308", "1.7976931348623157e308", "-1.4e308", "-1.5e308", "-1.7e308",
+         "-1.7976931348623157e308", "inf", "-inf", "0.0", "1.0", "-1.0", "5e-324", "1e-323", "1.5e-323", "-5e-324",
+         "2.2250738585072014e-308", "8.9e307", "9e307"]
+
+
+def extreme_cases(tier, rng, mult):
+    """F37 (fixed): `median` computed (a+b)/2.0, which overflows to inf for finite values beyond 9e307 and is nan for
+    -inf/+inf; every element then fell on one side of the split and sortLogNondominated recursed until RecursionError.
+    Populations whose objectives hold finite doubles near the overflow threshold, infinities and subnormals (the
+    halved median must not underflow below both middle values either), in every objective position."""
+    fixed = [
+        (["1", "1", "1"], [["0.0", "1.0", "1.5e308"], ["1.0", "0.0", "1.6e308"], ["0.0", "2.0", "1.7e308"], ["2.0", "0.0", "1.4e308"]]),
+        (["1", "1", "1"], [["0.0", "1.0", "-inf"], ["1.0", "0.0", "-inf"], ["0.0", "2.0", "inf"], ["2.0", "0.0", "inf"]]),
+        (["1", "1", "-1"], [["3.0", "3.0", "inf"], ["0.0", "0.0", "5.0"], ["1.0", "4.0", "inf"], ["4.0", "1.0", "inf"]]),
+        (["-1", "1", "1"], [["0.0", "1.0", "5e-324"], ["1.0", "0.0", "5e-324"], ["0.0", "2.0", "5e-324"], ["2.0", "0.0", "1.0"]]),
+        (["1", "-1", "1"], [["0.0", "1.0", "-1.5e308"], ["1.0", "0.0", "1.7e308"], ["0.0", "2.0", "-1.7e308"], ["2.0", "0.0", "1.5e308"]]),
+    ]
+    for w, pop in fixed:
+        yield dict(case(w, pop, range(0, len(pop) + 2), "extreme/fixed"), extreme=1)
+    count = int((40 if tier != "thorough" else 600) * mult)
+    for _ in range(count):
+        m = rng.choice([2, 3, 3, 4, 5])
+        n = rng.choice([3, 4, 4, 5, 6, 8, 11])
+        w = [rng.choice(["1", "-1"]) for _ in range(m)]
+        pool = rng.sample(XVALS, rng.choice([2, 3, 4, 6]))
+        xcols = set(rng.sample(range(m), rng.choice([1, 1, 2, m])))
+        pop = [[rng.choice(pool) if j in xcols else rng.choice(["0.0", "1.0", "2.0", "3.0"]) for j in range(m)]
+               for _ in range(n)]
+        yield dict(case(w, pop, sorted(set([0, 1, n // 2, n, n + 1])), "extreme/m=%d" % m), extreme=1)
+
+
 def generate(tier, rng, mult):
+    # F37 stream first: it carries the clause "both procedures return the ranking" at extreme magnitudes
+    for c in extreme_cases(tier, rng, mult):
+        yield c
     # interleave so that a time-limited run sees all parts
     ex = exhaustive(tier, rng, mult)
     rd = random_cases(tier, rng, mult)
